@@ -21,6 +21,7 @@ import (
 	"encoding/binary"
 	"errors"
 	"fmt"
+	"math"
 	mrand "math/rand"
 	"runtime"
 	"sort"
@@ -247,6 +248,12 @@ func vC07ModelBody(c *vh.Case) {
 	if gcEvery > 0 && gcEvery < validity/20 {
 		gcEvery = validity / 20
 	}
+	forever := c.Idx%12 == 7
+	if forever {
+		// "never expire": the largest duration (about 292 years), or a few centuries less; the sweep runs every hour
+		validity = []time.Duration{math.MaxInt64, math.MaxInt64 - time.Hour, 250 * 365 * 24 * time.Hour}[r.Intn(3)]
+		gcEvery = time.Hour
+	}
 	heavy := r.Intn(80) == 0
 	cacheN := []int{0, 1, 2, 2, 2, 3, 5}[r.Intn(7)]
 	nk := 1 + r.Intn(12)
@@ -299,6 +306,9 @@ func vC07ModelBody(c *vh.Case) {
 		e.store.Put(ctx, ds.NewKey(vC07ProvDsKey(k, vC07Peer(1000))), []byte{})
 		e.store.Put(ctx, ds.NewKey("/providers/"+base32.RawStdEncoding.EncodeToString(k)+"/not-base32!"), vC07TimeBytes(now()))
 		old := now() - int64(validity)/2
+		if forever {
+			old = now() - int64(30*24*time.Hour)
+		}
 		e.store.Put(ctx, ds.NewKey(vC07ProvDsKey(k, vC07Peer(1001))), vC07TimeBytes(old))
 		e.m.add(string(k), vC07Peer(1001), old, true)
 		c.Set("prefiled", fmt.Sprintf("malformed time, malformed peer component and one valid entry under key %x", k))
@@ -492,7 +502,9 @@ func vC07ModelBody(c *vh.Case) {
 			// aim at the validity limit of some addition
 			var d time.Duration
 			k, _ := pick()
-			if ls := e.m.last[string(k)]; len(ls) > 0 && r.Intn(4) != 0 {
+			if forever {
+				d = time.Duration(r.Int63n(int64(40*time.Hour))) + time.Nanosecond // nothing can expire: let sweeps pass
+			} else if ls := e.m.last[string(k)]; len(ls) > 0 && r.Intn(4) != 0 {
 				ids := make([]string, 0, len(ls))
 				for p := range ls {
 					ids = append(ids, string(p))
@@ -566,7 +578,7 @@ func vC07ModelBody(c *vh.Case) {
 
 func TestVerif_C07_model(t *testing.T) {
 	vh.Run(t, vh.Spec{Prop: "C07", Unit: "model", Quick: 4000, Thorough: 150000, CostMs: 8,
-		Rule:    "synctest bubble per case; PRNG history of 20-60 operations (add / query / advance aimed at validity +-1ns of some addition / wait for a sweep / evict by querying more keys than cache entries / clean restart) over 1-60 keys (1 in 80 cases: 257-600 keys against the default 256-entry cache; some keys extend others), 1-30 providers incl. the node itself, validity 10m-48h, cleanup interval 0 / validity/5 .. 1.3x, cache of 1-5 entries or default; optional pre-filed malformed + valid entries; 1 in 8 cases inject datastore write failures (failed add = provider may or may not be served); lock-step model key->provider->vt of last acknowledged add; after every acknowledged add a second manager is opened on a copy of the datastore replayed from the vjds journal and queried; every restart and the end check the Close fence; non-trivial = an expired provider was withheld, an answer came from the cache and an answer was re-loaded from the datastore for a key cached earlier; distinct by hash of the answer sequence",
+		Rule:    "synctest bubble per case; PRNG history of 20-60 operations (add / query / advance aimed at validity +-1ns of some addition / wait for a sweep / evict by querying more keys than cache entries / clean restart) over 1-60 keys (1 in 80 cases: 257-600 keys against the default 256-entry cache; some keys extend others), 1-30 providers incl. the node itself, validity 10m-48h (1 case in 12: about 292 years, the largest duration, with hourly sweeps), cleanup interval 0 / validity/5 .. 1.3x, cache of 1-5 entries or default; optional pre-filed malformed + valid entries; 1 in 8 cases inject datastore write failures (failed add = provider may or may not be served); lock-step model key->provider->vt of last acknowledged add; after every acknowledged add a second manager is opened on a copy of the datastore replayed from the vjds journal and queried; every restart and the end check the Close fence; non-trivial = an expired provider was withheld, an answer came from the cache and an answer was re-loaded from the datastore for a key cached earlier; distinct by hash of the answer sequence",
 		Clauses: []string{"valid-served", "expired-not-served", "no-duplicates", "no-stranger", "ack-durable", "reopen-after-write", "delete-only-expired", "closed-reports-closed", "closed-no-access"}},
 		func(c *vh.Case) {
 			c.Bubble(t, 24*365*30*time.Hour, "hang", func(t *testing.T) { vC07ModelBody(c) })
